@@ -25,7 +25,7 @@ theorem parseItems_toks (x : J) (xs : List J)
   induction xs generalizing x f with
   | nil =>
     obtain ⟨f, rfl⟩ : ∃ g, f = g + 1 := ⟨f - 1, by omega⟩
-    simp only [toksList, if_true, List.nil_append, List.append_nil, List.length_append] at hf ⊢
+    simp only [toksList, if_true, List.nil_append, List.append_nil] at hf ⊢
     rw [parseItems, ih x (by simp) f _ (by omega)]
   | cons y ys ihl =>
     obtain ⟨f, rfl⟩ : ∃ g, f = g + 1 := ⟨f - 1, by omega⟩
@@ -48,7 +48,7 @@ theorem parseEntries_toks (kv : List Char × J) (r : List (List Char × J))
   | nil =>
     obtain ⟨k, v⟩ := kv
     obtain ⟨f, rfl⟩ : ∃ g, f = g + 1 := ⟨f - 1, by omega⟩
-    simp only [toksEntries, if_true, List.nil_append, List.append_nil, List.length_append,
+    simp only [toksEntries, if_true, List.nil_append, List.append_nil,
       List.length_cons, List.cons_append] at hf ⊢
     rw [parseEntries, ih (k, v) (by simp) f _ (by simp only []; omega)]
   | cons e es ihl =>
@@ -108,40 +108,55 @@ theorem parse_toks (v : J) : parse (toks v) = some v := by
 
 /-! ### `gen` ends with a chunk (never with a new-line marker) -/
 
-theorem gen_last (c : Consts) (L : Limits) (v : J) (off : Nat) :
-    ∃ pre ch, gen c L v off = pre ++ [some ch] := by
+/-- the chunk list ends with a chunk -/
+def EndsSome (l : List (Option Chunk)) : Prop := ∃ pre ch, l = pre ++ [some ch]
+
+theorem endsSome_snoc (l : List (Option Chunk)) (ch : Chunk) : EndsSome (l ++ [some ch]) :=
+  ⟨l, ch, rfl⟩
+
+theorem endsSome_append (m : List (Option Chunk)) {l : List (Option Chunk)} (h : EndsSome l) :
+    EndsSome (m ++ l) := by
+  obtain ⟨pre, ch, rfl⟩ := h
+  exact ⟨m ++ pre, ch, by simp⟩
+
+theorem endsSome_cons (a : Option Chunk) {l : List (Option Chunk)} (h : EndsSome l) :
+    EndsSome (a :: l) := endsSome_append [a] h
+
+theorem endsSome_multiLine (L : Limits) (o cl : Char) (off : Nat)
+    (subs : List (List (Option Chunk))) : EndsSome (multiLine L o cl off subs) :=
+  endsSome_cons _ (endsSome_append _ (endsSome_snoc [none] _))
+
+theorem gen_last (c : Consts) (L : Limits) (v : J) (off : Nat) : EndsSome (gen c L v off) := by
   cases v with
-  | str s => exact ⟨[], _, rfl⟩
-  | num t => exact ⟨[], _, rfl⟩
-  | kw k => exact ⟨[], _, rfl⟩
+  | str s => exact endsSome_snoc [] _
+  | num t => exact endsSome_snoc [] _
+  | kw k => exact endsSome_snoc [] _
   | list xs =>
     simp only [gen, renderList]
     cases xs with
-    | nil => exact ⟨[], _, rfl⟩
+    | nil => exact endsSome_snoc [] _
     | cons x xs' =>
       simp only []
       cases allSimple? (x :: xs') with
-      | none => exact ⟨some ['['] :: (multiBody _ true _ ++ [none]), _, by simp [multiLine]⟩
+      | none => exact endsSome_multiLine _ _ _ _ _
       | some ss =>
         simp only []
         split
-        · exact ⟨some ['['] :: sepItems true _, _, by simp⟩
-        · exact ⟨[some ['['], none] ++ wrapItems L off _ 0 true, _, by simp [wrappedList]⟩
+        · exact endsSome_cons _ (endsSome_snoc _ _)
+        · exact endsSome_snoc _ _
   | dict kvs =>
     simp only [gen, renderDict]
     cases kvs with
-    | nil => exact ⟨[], _, rfl⟩
+    | nil => exact endsSome_snoc [] _
     | cons kv r =>
       simp only []
-      have hm : ∀ subs, ∃ pre ch, multiLine L '{' '}' off subs = pre ++ [some ch] :=
-        fun subs => ⟨some ['{'] :: (multiBody _ true subs ++ [none]), _, by simp [multiLine]⟩
       cases allSimpleD? (kv :: r) with
-      | none => exact hm _
+      | none => exact endsSome_multiLine _ _ _ _ _
       | some ss =>
         simp only []
         split
-        · exact ⟨some ['{'] :: sepItems true _, _, by simp⟩
-        · exact hm _
+        · exact endsSome_cons _ (endsSome_snoc _ _)
+        · exact endsSome_multiLine _ _ _ _ _
 
 theorem joinLines_groupLines_gen (c : Consts) (L : Limits) (v : J) (off : Nat) :
     joinLines (groupLines (gen c L v off)) = text (gen c L v off) := by
